@@ -484,3 +484,14 @@ Theorem C19_leaf_image_range : forall f m,
     = true.
 Proof. exact LeafWrap.image_range_agrees. Qed.
 Print Assumptions C19_leaf_image_range.
+
+(* the source places the binders of the generated leaf definitions stand for (third audit, F2) *)
+From Coq Require Import List String.
+Import ListNotations.
+Theorem C19_leaf_reads_wrap :
+  Leaf.L_pe32_headers_Headers_code_range_args = ["optional_header.SizeOfCode : u32"%string; "optional_header.BaseOfCode : u32"%string] /\
+  Leaf.L_pe32_headers_Headers_image_range_args = ["optional_header.SizeOfImage : u32"%string; "optional_header.SizeOfHeaders : u32"%string] /\
+  Leaf.L_pe64_headers_Headers_code_range_args = ["optional_header.SizeOfCode : u32"%string; "optional_header.BaseOfCode : u32"%string] /\
+  Leaf.L_pe64_headers_Headers_image_range_args = ["optional_header.SizeOfImage : u32"%string; "optional_header.SizeOfHeaders : u32"%string].
+Proof. exact LeafWrap.leaf_reads_wrap. Qed.
+Print Assumptions C19_leaf_reads_wrap.
